@@ -391,6 +391,18 @@ func augmentOriginalFile(file *ast.File, overrides map[string]overrideInfo) {
 						d.Specs[j] = nil
 					}
 				case *ast.ValueSpec:
+					if d.Tok == token.CONST && laterConstsDependOnPosition(d, j) {
+						// Later specifications of this group repeat the expressions of an
+						// earlier one or count their position with iota. Removing this one
+						// would change their values (or leave them without any), so the
+						// overridden constants are blanked instead.
+						for _, name := range s.Names {
+							if _, ok := overrides[name.Name]; ok {
+								name.Name = `_`
+							}
+						}
+						continue
+					}
 					if len(s.Names) == len(s.Values) {
 						// multi-value context
 						// e.g. var a, b = 2, foo[int]()
@@ -441,6 +453,34 @@ func augmentOriginalFile(file *ast.File, overrides map[string]overrideInfo) {
 		finalizeRemovals(file)
 		pruneImports(file)
 	}
+}
+
+// laterConstsDependOnPosition reports whether a constant specification following
+// the one at the given index relies on its position in the group: it has no
+// expressions of its own (implicit repetition) or mentions iota.
+func laterConstsDependOnPosition(d *ast.GenDecl, index int) bool {
+	for _, spec := range d.Specs[index+1:] {
+		s, ok := spec.(*ast.ValueSpec)
+		if !ok {
+			continue
+		}
+		if len(s.Values) == 0 {
+			return true
+		}
+		usesIota := false
+		for _, v := range s.Values {
+			ast.Inspect(v, func(n ast.Node) bool {
+				if id, ok := n.(*ast.Ident); ok && id.Name == `iota` {
+					usesIota = true
+				}
+				return !usesIota
+			})
+		}
+		if usesIota {
+			return true
+		}
+	}
+	return false
 }
 
 // isOnlyImports determines if this file is empty except for imports.
